@@ -443,7 +443,14 @@ def write_evidence(prop, tier, seed, units, recs, canaries, bounded, known, know
     assumptions += ["assumed library contract %s: %s" % (k, LIB_AXIOMS[k]) for k in sorted(axioms) if k in LIB_AXIOMS]
     for cid in [u["cid"] for u in units if u.get("ok") and u["cid"] in REGISTRY]:
         c = REGISTRY[cid]
+        for a in c.assumes:
+            assumptions.append("%s assumes: %s" % (cid.split(":")[1], a))
+        for lab, rq in c.requires.items():
+            assumptions.append("%s requires (precondition, not checked at its callers unless they are under contract): %s: %s" % (
+                cid.split(":")[1], lab, rq if isinstance(rq, str) else getattr(rq, "expr", rq)))
         for name, cal in c.calls.items():
+            if cal.kind == "attrfn":
+                assumptions.append("%s: attribute %s is modelled by a hand-written assumed contract" % (cid.split(":")[1], name))
             if cal.kind in ("uf", "effect", "custom", "attr"):
                 assumptions.append("%s: callee %s is %s (contract assumed, body not verified here)" % (
                     cid.split(":")[1], name, {"uf": "an uninterpreted pure function of its arguments",
